@@ -9,17 +9,21 @@ import numpy as np
 import common as C
 
 PID = "C07"
-DRIVER = [("C07", "TfPwaV.Gen.DerivF", "DerivF.handle")]
-LEAN_TARGETS = ["TfPwaV.Props.C07", "TfPwaV.Props.C07b", "TfPwaV.Props.C07c", "TfPwaV.Gen.DerivF"]
-PROP_MODULES = ["TfPwaV.Props.C07", "TfPwaV.Props.C07b", "TfPwaV.Props.C07c"]
-ALL_MODULES = ["TfPwaV.Proofs.Deriv", "TfPwaV.Props.C07", "TfPwaV.Props.C07b", "TfPwaV.Props.C07c", "TfPwaV.Proofs.ScalarR"]
+DRIVER = [("C07", "TfPwaV.Gen.DerivF", "DerivF.handle"), ("C07d", "TfPwaV.Gen.DerivYF", "DerivYF.handle")]
+LEAN_TARGETS = ["TfPwaV.Props.C07", "TfPwaV.Props.C07b", "TfPwaV.Props.C07c", "TfPwaV.Props.C07d", "TfPwaV.Gen.DerivF", "TfPwaV.Gen.DerivYF"]
+PROP_MODULES = ["TfPwaV.Props.C07", "TfPwaV.Props.C07b", "TfPwaV.Props.C07c", "TfPwaV.Props.C07d"]
+ALL_MODULES = ["TfPwaV.Proofs.Deriv", "TfPwaV.Proofs.DerivY", "TfPwaV.Props.C07", "TfPwaV.Props.C07b", "TfPwaV.Props.C07c", "TfPwaV.Props.C07d",
+               "TfPwaV.Proofs.ScalarR"]
 ASSUMPTIONS = [
     "TensorFlow autodiff (GradientTape, ForwardAccumulator) is modelled, not verified: the theorems take what the tapes return (sums, gradients, Hessians, Hessian-vector products of ln_data, int_mc, I_sig, I_bg, ll) as HYPOTHESES (HasDerivAt / HasFDerivAt witnesses) and prove that the code's assembly of them is the derivative of the assembled value; the tape itself is covered by finite differences on the implementation (search) and by the tape-level model tapeGrad/tapeHess compared with sum_gradient/sum_hessian on per-event jacobians",
     "directional statements: derivatives along an arbitrary line theta0 + s p (q^T H p for arbitrary p, q determines the Hessian); bound wrappers and cfit use Frechet differentiability of the outer function",
     "clip_log is differentiated where x != eps (the C2 junction itself is C06's clip_log_C2)",
     "cfit Hessian: np.dot(jac.T, np.dot(h_ll, jac)) with jac = [eye; g_sig; g_bg] is transcribed in block form (the products with the identity block are written out)",
     "finite differences: 5-point central stencil on the implementation, step 2e-3 (toy) / 2e-4 (real model), tolerance 2e-6 relative to max(1, |g|_inf) (gradient) and max(1, |H|_inf) (Hessian, Hessian-vector product); a case whose two step sizes disagree by more than a quarter of the tolerance is counted as ill-conditioned and skipped",
-    "resolution_size > 1 is exercised by the search only; inject_mc (Model_new), MixLogLikehoodFCN, constr_frac models are not claimed",
+    "resolution_size > 1 is exercised by the search only",
+    "custom family (C07d): per data batch the tape outputs of eval_nll_part (value, direct gradient, partials w.r.t. the normalisation factors, Hessian blocks) are hypotheses / parameters; eval_nll_part as a function of (line position, factor vector) is required Frechet differentiable; the batch-0 once-only terms enter because every batch has its OWN function A_b",
+    "C07d Hessian (custom_hess_is_deriv): the MC-batch loop (SumVar.__add__ of values, gradients, Hessians) is a separate theorem (custom_hess_mc_batches) whose conclusion is the hypothesis of custom_hess_is_deriv; the per-factor Hessians Z_j are assumed SYMMETRIC (the code symmetrises them: 0.5 d^T z d); inject_mc (inmc_grad_is_deriv): the injected-MC weight is FIXED (float_wmc=True: finite differences only); simple_cfit / cfit_constr_frac have no closed-formula theorem (their tape outputs are hypotheses of custom_grad_is_deriv / custom_hess_is_deriv); ConstrainModel's model (cmCs) assumes distinct tf.Variable names and is NOT tied by correspondence (every tf.Variable is named 'Variable:0' on this TensorFlow, the class's lookups collapse)",
+    "MixLogLikehoodFCN.get_nll_grad is exercised on an object whose attributes (model, data_merge, weight_phsps, n_datas) are set by hand: its __init__ cannot be run on plain dict data (needs get_weight and type(mcdata)(dict))",
 ]
 
 KEY_HP_CONSTR = "grad_hessp:gauss-constraint-curvature-missing"
@@ -688,6 +692,9 @@ def search(ctx, res):
         tlog("search: real %s done" % gen["name"])
     search_constrain_model(res, stats)
     search_constr_tied(res, stats)
+    import c07_y
+    c07_y.search_y(ctx, rng, res, stats)
+    tlog("search: custom family / constr_frac / inject_mc / parametrised cfit background / MixLogLikehoodFCN done")
     res.coverage["search_cases"] = stats
     res.coverage["search_rule"] = ("5-point finite differences of the returned value / gradient vs nll_grad, nll_grad_hessian, grad_hessp "
                                    "(raw and through trans_fcn_grad / trans_f_grad_hess / trans_grad_hessp), value paths, batch in {3,n,2n}, "
@@ -1103,6 +1110,9 @@ def correspond(ctx, res):
         grp = tie_groups(spec, vmt)
         cor.add("C07 tie %d %d %s %s" % (len(vmt.trainable_vars), len(grp), " ".join(str(g) for g in grp), L(gf)), gt,
                 "tied gradient vs tieGrad of the untied gradient (tie=%s fix=%s)" % (spec.get("tie"), spec.get("fix")), {"op": "toy", "spec": spec})
+    import c07_y
+    c07_y.correspond_y(ctx, rng, cor, res)
+    tlog("correspondence: custom family pieces collected (%d ops)" % len(cor.lines))
     out = ctx.model.query(cor.lines)
     bad, worst = 0, 0.0
     for line, o, want, label, rep in zip(cor.lines, out, cor.want, cor.labels, cor.replays):
@@ -1116,7 +1126,7 @@ def correspond(ctx, res):
         if not e <= CTOL:
             bad += 1
             if bad <= 5:
-                res.broke("correspondence %s" % label, {"op": line.split()[1], "rel": e, "model": got.tolist()[:12], "impl": want.tolist()[:12], "replay": rep})
+                res.broke("correspondence %s" % label, {"op": " ".join(line.split()[:2]), "rel": e, "model": got.tolist()[:12], "impl": want.tolist()[:12], "replay": rep})
     res.coverage.update({
         "traces_validated_against_impl": len(cor.lines),
         "evaluations": int(sum(len(w) for w in cor.want)),
@@ -1127,7 +1137,7 @@ def correspond(ctx, res):
                 "jacobians through tapeVal/tapeGrad/tapeHess; ties vs tieGrad; rel %.0e of max(1, |result|_inf)" % CTOL,
         "exhaustive": False,
         "worst_assembly_rel": worst,
-        "ops": sorted({l.split()[1] for l in cor.lines}),
+        "ops": sorted({l.split()[1] if l.split()[0] == "C07" else "Y:" + l.split()[1] for l in cor.lines}),
     })
     res.samples += [{"op": cor.lines[i].split()[1], "label": cor.labels[i], "impl": cor.want[i][:4].tolist()} for i in range(0, len(cor.lines), max(1, len(cor.lines) // 6))][:8]
     tlog("correspondence done: %d ops, %d bad, worst rel %.2e" % (len(cor.lines), bad, worst))
@@ -1153,6 +1163,12 @@ def replay(ctx, payload):
         search_constrain_model(res, stats)
     elif r.get("op") == "constr_tied":
         search_constr_tied(res, stats)
+    elif r.get("op") == "toyY":
+        import c07_y
+        c07_y.search_toy_y(r["spec"], res, stats, "replay")
+    elif r.get("op") == "mix":
+        import c07_y
+        c07_y.search_mix(np.random.Generator(np.random.Philox(ctx.seed * 1000 + 777)), res, stats)
     else:
         print("replay file names a broken obligation, not a failing input:", str(payload.get("broken"))[:3000])
         return 1
@@ -1164,7 +1180,7 @@ def replay(ctx, payload):
 
 
 MANIFEST = {
-    "text": "Lean theorems over the reals (Mathlib HasDerivAt / HasFDerivAt, derivatives are unique) for ALL parameter points, directions p, q and all numbers the tapes may return: IF ln_data, int_mc (I_sig, I_bg, ll) have the gradients / Hessians / Hessian-vector products handed to the assembly code THEN the assembled gradient is the derivative of the assembled value -ln_data + sw int_f(int_mc) along every line (grad_is_deriv), q^T H p of the assembled Hessian is the derivative of q.g (hess_is_deriv), grad_hessp_batch returns exactly H.p (hessp_eq_hess_mul, hessp_is_deriv), extended and normalised; the differently written cached_int / cached_amp formulas are the same numbers (cached_eq_default); cfit and cfit-extended gradient and Hessian J^T H_ll J + dll/dI_sig H_Isig + dll/dI_bg H_Ibg (+ sw(H_I/I - g g^T/I^2) - H_I/(1-w)) are the derivatives of -ll(theta, I_sig(theta), I_bg(theta)) (+ extended terms) (cfit_grad_is_deriv, cfit_hess_is_deriv); the three bound wrappers implement d/dx F(y(x)) = F'y', H_x = y'H_y y' + diag(F'y''), and trans_grad_hessp = H_x.p (bound_chain_rule, bound_hess_chain_rule, trans_hessp_eq_hess_mul); Gaussian-constraint term / gradient / Hessian are derivatives of each other for every sigma (gauss_terms_deriv); FCN value+term, gradient+grad, Hessian+Hessian and (after fix_grad_hessp.diff) hessp + H_c.p belong to one function (fcn_is_deriv), while the unpatched grad_hessp text is REFUTED on a witness (fcn_hessp_legacy_violates); CombineFCN sums (combine_is_deriv); a tied group receives the sum of its members' partials and fixed names drop out (shared_fixed); and from per-event derivative data to the NLL: tape_grad_is_deriv, tape_hess_is_deriv, clipLog_hasDerivAt, nll_grad_from_events (the gradient the code assembles is the gradient of -sum w clip_log f + sw int_f(sum v f), which above eps is -sum w ln f + sw ln sum v f).",
-    "note": "Model = templates/Deriv.lean.in (assembly formulas over lists, per-tape data as parameters) instantiated at R (proofs) and Float (execution). Tie to the code, every run: the library's own sum_gradient / sum_hessian / sum_grad_hessp results are fed to the Float instance and compared (1e-9, observed 1e-15) with nll_grad_batch / grad_hessp_batch / nll_grad_hessian of Model (default, extended), Model_cfit, ModelCfitExtended, ModelCachedInt (ModelCachedAmp in the thorough tier), the three bound wrappers, GaussianConstr, FCN.nll_grad_hessian / grad_hessp (fixed or legacy variant as observed on the tree), CombineFCN sums, ties vs tieGrad, and sum_hessian vs the per-event chain rule (tapeHess) on TensorFlow jacobians of a toy amplitude. TensorFlow autodiff itself is NOT verified: the search differentiates the implementation numerically (5-point stencil, two step sizes, 2e-6; observed 1e-11): returned gradient vs FD of the returned value, Hessian vs FD of the gradient, grad_hessp vs H_fd.p, raw and through trans_fcn_grad / trans_f_grad_hess / trans_grad_hessp with two-sided / lower / upper bounds, tied and fixed parameters, Gaussian constraints, batch in {3, n, 2n}, value alongside = stand-alone value, for 8 toy model kinds (+ resolution_size 2), CombineFCN, and a real AmplitudeModel through ConfigLoader (floating couplings, mass, width; cached and cfit variants rotating / thorough). Three listed findings are reported through search with stable keys and are silent on the patched tree: grad_hessp omits the constraint curvature; cfit / custom models inherit the default model's grad_hessp_batch; SumVar gives every normalisation factor the summed Hessian (simple_cfit Hessian wrong). Not claimed: inject_mc, MixLogLikehoodFCN, constr_frac models; ConstrainModel only by a consistency probe; Float rounding.",
+    "text": "Lean theorems over the reals (Mathlib HasDerivAt / HasFDerivAt, derivatives are unique) for ALL parameter points, directions p, q and all numbers the tapes may return: IF ln_data, int_mc (I_sig, I_bg, ll) have the gradients / Hessians / Hessian-vector products handed to the assembly code THEN the assembled gradient is the derivative of the assembled value -ln_data + sw int_f(int_mc) along every line (grad_is_deriv), q^T H p of the assembled Hessian is the derivative of q.g (hess_is_deriv), grad_hessp_batch returns exactly H.p (hessp_eq_hess_mul, hessp_is_deriv), extended and normalised; the differently written cached_int / cached_amp formulas are the same numbers (cached_eq_default); cfit and cfit-extended gradient and Hessian J^T H_ll J + dll/dI_sig H_Isig + dll/dI_bg H_Ibg (+ sw(H_I/I - g g^T/I^2) - H_I/(1-w)) are the derivatives of -ll(theta, I_sig(theta), I_bg(theta)) (+ extended terms) (cfit_grad_is_deriv, cfit_hess_is_deriv); the three bound wrappers implement d/dx F(y(x)) = F'y', H_x = y'H_y y' + diag(F'y''), and trans_grad_hessp = H_x.p (bound_chain_rule, bound_hess_chain_rule, trans_hessp_eq_hess_mul); Gaussian-constraint term / gradient / Hessian are derivatives of each other for every sigma (gauss_terms_deriv); FCN value+term, gradient+grad, Hessian+Hessian and (after fix_grad_hessp.diff) hessp + H_c.p belong to one function (fcn_is_deriv), while the unpatched grad_hessp text is REFUTED on a witness (fcn_hessp_legacy_violates); CombineFCN sums (combine_is_deriv); a tied group receives the sum of its members' partials and fixed names drop out (shared_fixed); and from per-event derivative data to the NLL: tape_grad_is_deriv, tape_hess_is_deriv, clipLog_hasDerivAt, nll_grad_from_events (the gradient the code assembles is the gradient of -sum w clip_log f + sw int_f(sum v f), which above eps is -sum w ln f + sw ln sum v f). C07d (templates/DerivY.lean.in), all for ANY number of MC batches, data batches, normalisation factors, events and parameters: custom_grad_is_deriv — the SumVar sum carries the summed factors, the value returned by BaseCustomModel.nll_grad_batch is the sum of the batch values (every batch once, batch 0 with its once-only terms) and the returned gradient (direct part + sum_j da/dnorm_j * grad_j per batch) is the derivative of s -> sum_b A_b(s, sum_c N_c(s)); custom_hess_is_deriv — the Hessian assembled by nll_grad_hessian (A + B.Y + Y^T.R + Y^T.C.Y + sum_j da/dnorm_j * sym(Z_j) per batch, summed) is the derivative of the returned gradient (q^T H p for all p, q), custom_hess_mc_batches — the SumVar.from_call_with_hess / __add__ loop over the MC batches carries the sums and they satisfy the hypotheses of custom_hess_is_deriv; constr_frac_grad_is_deriv — the constr_frac model END TO END from the closed formulas of eval_nll_part (fraction constraints in batch 0 only, quotient rule constr_frac_term_is_deriv through norm[i+1]/norm[0]), simple = the case without constraints (simple_is_constr_frac_nil), simple_clip_grad_is_deriv (clip_log on the normalisation factor) end to end; cfit_bg_param_grad_is_deriv — Model_cfit with a PARAMETRISED background from per-event derivative data of sig AND bg with both integrals moving (tape on ll composed with the assembly), cfit_bg_param_hess_is_deriv (the assembly-level Hessian statement with both integrals, gradient tables and Hessians non-trivial); inmc_grad_is_deriv — inject_mc (sum_gradient_new) from per-event data, fixed injected weight; mix_fcn_grad_is_deriv — MixLogLikehoodFCN.get_nll_grad for any number of normalised / extended models; constrain_model_terms_deriv (+ break witness); refutations cfit_swapped_outer_violates (seed C07-04: g_int_bg*g_ll_sig is not the derivative on a witness, the unswapped text is) and custom_lost_idx_counts_twice (seed C06-04: the once-only term is counted per batch).",
+    "note": "Model = templates/Deriv.lean.in (assembly formulas over lists, per-tape data as parameters) instantiated at R (proofs) and Float (execution). Tie to the code, every run: the library's own sum_gradient / sum_hessian / sum_grad_hessp results are fed to the Float instance and compared (1e-9, observed 1e-15) with nll_grad_batch / grad_hessp_batch / nll_grad_hessian of Model (default, extended), Model_cfit, ModelCfitExtended, ModelCachedInt (ModelCachedAmp in the thorough tier), the three bound wrappers, GaussianConstr, FCN.nll_grad_hessian / grad_hessp (fixed or legacy variant as observed on the tree), CombineFCN sums, ties vs tieGrad, and sum_hessian vs the per-event chain rule (tapeHess) on TensorFlow jacobians of a toy amplitude. TensorFlow autodiff itself is NOT verified: the search differentiates the implementation numerically (5-point stencil, two step sizes, 2e-6; observed 1e-11): returned gradient vs FD of the returned value, Hessian vs FD of the gradient, grad_hessp vs H_fd.p, raw and through trans_fcn_grad / trans_f_grad_hess / trans_grad_hessp with two-sided / lower / upper bounds, tied and fixed parameters, Gaussian constraints, batch in {3, n, 2n}, value alongside = stand-alone value, for 8 toy model kinds (+ resolution_size 2), CombineFCN, and a real AmplitudeModel through ConfigLoader (floating couplings, mass, width; cached and cfit variants rotating / thorough). Three listed findings are reported through search with stable keys and are silent on the patched tree: grad_hessp omits the constraint curvature; cfit / custom models inherit the default model's grad_hessp_batch; SumVar gives every normalisation factor the summed Hessian (simple_cfit Hessian wrong). C07d tie, every run: the library's own _fast_int_mc_grad outputs per MC batch and the TensorFlow tape on the library's eval_nll_part per data batch (normalisation factors as independent variables) are fed to DerivYF and compared (1e-9) with BaseCustomModel.nll_grad_batch and nll_grad_hessian (SumVar.from_call_with_hess pieces, Hessian blocks A/B/R/C) of simple, simple_clip, simple_cfit, simple_chi2, constr_frac, cfit_constr_frac with >= 2 MC and data batches of NON-DIVIDING size; the closed formulas of eval_nll_part in the factors (simple, simple_clip, constr_frac incl. idx 0 / idx 1, cfit_constr_frac) vs the tape; sum_gradient(prob) of cfit with a floating-parameter bg_f vs per-event jacobians of sig and bg (cfitTape); inject_mc vs per-event chain rule (inmc); MixLogLikehoodFCN.get_nll_grad vs mixVal/mixGrad. Search additionally: constr_frac / cfit_constr_frac (two switchable toy resonances) / inject_mc (floating weight_injectMC) with non-dividing batches, one-batch comparison, through the bound wrappers; cfit with a floating-parameter bg_f through the bound wrappers every run; MixLogLikehoodFCN gradient vs FD. Validated only (no theorem): that TensorFlow's tape through SumVar.__call__ (custom first / second order expansion) returns partGrad / partHess, the closed formulas of simple_cfit / cfit_constr_frac inside a derivative statement, a FLOATING injected-MC weight; ConstrainModel only by the consistency probe (its model is untied); Float rounding.",
     "technique": "Lean 4 proof over the reals (HasDerivAt/HasFDerivAt chain rules, uniqueness of derivatives) of one template instantiated at Float for assembly-level differential correspondence with the implementation's own tape outputs, a refutation theorem for the unpatched Hessian-vector product, and finite-difference search on the implementation",
 }
